@@ -96,7 +96,7 @@ def ref_arnoldi_subdiag(A, v, m):
     return sub
 
 
-MAPFORMS = ('identity_alias', 'reversal_view', 'buffer')
+MAPFORMS = ('identity_alias', 'reversal_view', 'buffer', 'zero_map', 'diag_basis')
 
 
 def special(rng, n, form, vreal):
@@ -114,6 +114,22 @@ def special(rng, n, form, vreal):
         reach = np.array([lam for lam, part in ((1.0, sym), (-1.0, asym)) if np.linalg.norm(part) > tol])
         lam = np.array([1.0] * ((n + 1) // 2) + [-1.0] * (n // 2))
         return dict(A=A, v=v, kdim=len(reach), lam=lam, reach=reach, Afunc=lambda x: x[::-1])
+    if form == 'zero_map':
+        # the zero map (Hermitian): the Krylov space of any vector has dimension one and A v = 0 exactly
+        return dict(A=np.zeros((n, n)), v=v, kdim=1, lam=np.zeros(n), reach=np.zeros(1), Afunc=lambda x: 0 * x)
+    if form == 'diag_basis':
+        # integer diagonal matrix (singular with probability ~1/2), start vector supported on a few basis vectors with small
+        # integer coefficients: exhaustion happens in exact arithmetic (e.g. a start vector in the null space gives w = 0 exactly)
+        dg = rng.integers(-2, 3, n).astype(float)
+        if rng.random() < 0.5:
+            dg[int(rng.integers(n))] = 0.0
+        supp = rng.choice(n, size=int(rng.integers(1, min(n, 3) + 1)), replace=False)
+        if rng.random() < 0.4 and np.any(dg == 0):
+            supp = np.where(dg == 0)[0][:1]                      # null vector
+        v = np.zeros(n, dtype=float if vreal else complex)
+        v[supp] = rng.integers(1, 4, len(supp)) * (1 if vreal else rng.choice([1, -1, 1j, -1j], len(supp)))
+        reach = np.unique(dg[supp])
+        return dict(A=np.diag(dg), v=v, kdim=len(reach), lam=dg, reach=reach, Afunc=lambda x, dg=dg: dg * x)
     if form == 'buffer':
         P = build(rng, n, 'cherm', 'separated', n, vreal=vreal)
         buf = np.zeros(n, dtype=complex)
